@@ -164,6 +164,8 @@ def hand_made_histories(rep):
             rep.violation("determinism/resolve-does-not-return/%s" % r["probe"], r)
         elif r["result"].startswith("panic"):
             rep.violation("determinism/panic-or-error", r)
+        elif r.get("distinct", 1) > 1:
+            rep.violation("determinism/result-depends-on-order-or-run/hand-made/%s" % r["probe"], r)
     if k < 1:
         raise vlib.ToolError("the hand-made histories did not run")
     rep.part("hand_made_histories", probes=k)
